@@ -31,3 +31,9 @@ def attr_bool(b, cls, param, extra=None, **kw):
 def attr_true_string(k, cls, param, extra=None, **kw):
     s = ("true", "false")[k]
     return attr_str(s, cls, param, extra)
+
+
+def text_content_arg(s, **kw):
+    from odfdo.list import ListItem
+    li = ListItem(s)
+    return li.text_content != s, f"ListItem({s!r}).text_content == {li.text_content!r}"
